@@ -3,6 +3,8 @@ EXTENDS SymExport
 ASSUME RebuildFlatten
 ASSUME ImportNeverDangling
 ASSUME Emit
+ASSUME CompletedWhateverTheRows
+ASSUME IF ViaFree THEN TRUE ELSE EmitCompositions
 ASSUME IF ViaFree THEN TRUE ELSE EmitTables
 ASSUME PrintT("FORESTS " \o ToString(Cardinality(Forests)) \o " TABLES " \o ToString(Cardinality(Tables)))
 =============================================================================
